@@ -679,4 +679,11 @@ def r6_regexes_not_exponential(ctx: Ctx) -> None:
     ctx.floor("regex_literals", 2)
 
 
-RULES = [r1_progress, r2_end_of_input, r3_run_sentinels, r4_recursion, r5_backup_balance, r6_regexes_not_exponential]
+def r7_include_parses_the_included_file(ctx: Ctx) -> None:
+    """an .include parses the tokens of the file it names, not those of the including file again (C16.R3): re-parsing the includer recurses without end"""
+    from .c16 import r3_include_is_transparent as _c16_r3_include_is_transparent
+
+    _c16_r3_include_is_transparent(ctx)
+
+
+RULES = [r1_progress, r2_end_of_input, r3_run_sentinels, r4_recursion, r5_backup_balance, r6_regexes_not_exponential, r7_include_parses_the_included_file]
